@@ -344,8 +344,9 @@ func genConc(g *gen) {
 						for s := 0; s < steps; s++ {
 							switch x := g.intn(10); {
 							case x < 5:
-								order++
+								// log positions start at 0: the first record of an offsets-topic partition is a commit like any other
 								lanes[li] = append(lanes[li], fmt.Sprintf("commit/%s/%s/%s/%d/%d/%d/%d", hexName(c), hexName(grp), hexName(topics[g.intn(2)]), g.intn(3), 90+order, order, -20000+order*10))
+								order++
 							case x < 6:
 								lanes[li] = append(lanes[li], fmt.Sprintf("owner/%s/%s/%s/%d/%s/%s", hexName(c), hexName(grp), hexName(topics[g.intn(2)]), g.intn(2), hexName("h"+fmt.Sprint(g.intn(3))), hexName("cl")))
 							case x < 7:
